@@ -254,6 +254,11 @@ class MvTr:
                 j, tj = self.expr(ix[1])
                 if tj == 'idx':
                     return f'(msel_cols {a} {j})', 'mat'
+            if (ta == 'vec' and len(ix) == 1 and isinstance(ix[0], ast.Slice) and ix[0].upper is None and ix[0].step is None
+                    and isinstance(ix[0].lower, ast.Call) and t2.src(ix[0].lower.func) == 'len' and len(ix[0].lower.args) == 1):
+                j, tj = self.expr(ix[0].lower.args[0])
+                if tj == 'idx':
+                    return f'(skipn (length {j}) {a})', 'vec'
             if ta == 'vec' and len(ix) == 1 and not isinstance(ix[0], ast.Slice):
                 i, ti = self.expr(ix[0])
                 if ti == 'idx':
@@ -266,10 +271,49 @@ class MvTr:
                 return f'(matvec o {a} {b})', 'vec'
             if isinstance(n.op, ast.Sub) and (ta, tb) == ('vec', 'vec'):
                 return f'(vsub o {a} {b})', 'vec'
+            if isinstance(n.op, ast.Add) and (ta, tb) == ('vec', 'vec'):
+                return f'(vadd o {a} {b})', 'vec'
+            if isinstance(n.op, ast.Add) and (ta, tb) == ('mat', 'mat'):
+                return f'(madd {a} {b})', 'mat'
+            if isinstance(n.op, ast.MatMult) and (ta, tb) == ('mat', 'mat'):
+                return f'(mmul o {a} {b})', 'mat'
             if isinstance(n.op, ast.Div) and (ta, tb) == ('vec', 'invw'):
                 # v / epsilon  with w = 1/epsilon
                 return f'(map (fun v => rmul o v {b}) {a})', 'vec'
             raise TranslateError('operator in ' + t2.src(n))
+        if isinstance(n, ast.Subscript) and isinstance(n.slice, ast.Slice):
+            pass
+        if isinstance(n, ast.Call) and t2.src(n.func) == 'np.concatenate' and len(n.args) == 1 and not n.keywords \
+                and isinstance(n.args[0], ast.Tuple) and len(n.args[0].elts) >= 2:
+            parts = [self.expr(e) for e in n.args[0].elts]
+            tys = {ty for _, ty in parts}
+            if tys in ({'vec'}, {'idx'}):
+                out = parts[-1][0]
+                for a, _ in reversed(parts[:-1]):
+                    out = f'({a} ++ {out})'
+                return out, tys.pop()
+            raise TranslateError('concatenate of ' + repr(tys))
+        if isinstance(n, ast.Call) and t2.src(n.func) == 'bmat':
+            # bmat([[a, b], [c, d]], 'csr'): the left blocks are  X[..][:, <J>]  with the same J
+            if not (len(n.args) == 2 and isinstance(n.args[1], ast.Constant) and n.args[1].value == 'csr' and not n.keywords
+                    and isinstance(n.args[0], ast.List) and len(n.args[0].elts) == 2
+                    and all(isinstance(r, ast.List) and len(r.elts) == 2 for r in n.args[0].elts)):
+                raise TranslateError('bmat shape: ' + t2.src(n)[:80])
+            rows, widths = [], set()
+            for r in n.args[0].elts:
+                left = r.elts[0]
+                ix = t2.index_tuple(left) if isinstance(left, ast.Subscript) else []
+                if not (len(ix) == 2 and isinstance(ix[0], ast.Slice) and isinstance(ix[1], ast.Name)):
+                    raise TranslateError('bmat left block: ' + t2.src(left))
+                widths.add(ix[1].id)
+                (a, ta), (b, tb) = self.expr(r.elts[0]), self.expr(r.elts[1])
+                if (ta, tb) != ('mat', 'mat'):
+                    raise TranslateError('bmat block types')
+                rows.append((a, b))
+            if len(widths) != 1:
+                raise TranslateError('bmat: left blocks of different width')
+            w = self.env[widths.pop()][0]
+            return (f'(mvstack (mhstack (length {w}) {rows[0][0]} {rows[0][1]}) (mhstack (length {w}) {rows[1][0]} {rows[1][1]}))'), 'mat'
         if isinstance(n, ast.Call) and isinstance(n.func, ast.Attribute) and not n.args and not n.keywords:
             a, ta = self.expr(n.func.value)
             if n.func.attr == 'diagonal' and ta == 'mat':
@@ -460,7 +504,25 @@ def translate_penalize(fn):
     _expect(body[0], 'b, x, I, D = _init_bc(A, b, x, I, D)', 'penalize[0]')
     _expect(body[1], 'Aout = A if overwrite else A.copy()', 'penalize[1]')
     _expect(body[2], 'd = Aout.diagonal()', 'penalize[2]')
-    _expect(body[3], 'if epsilon is None:\n    epsilon = 1e-10 / np.linalg.norm(d[D], np.inf).astype(float)', 'penalize default epsilon')
+    # the default penalty parameter: any block that only computes local scalars and binds epsilon (its VALUE is a runtime
+    # matter checked by the oracle; the model is parametrised by w = 1/epsilon)
+    blk = body[3]
+    if not (isinstance(blk, ast.If) and t2.src(blk.test) == 'epsilon is None' and not blk.orelse):
+        raise TranslateError('penalize: default epsilon block')
+
+    def only_local_scalars(stmts):
+        names = set()
+        for s in stmts:
+            if isinstance(s, ast.Assign) and len(s.targets) == 1 and isinstance(s.targets[0], ast.Name):
+                names.add(s.targets[0].id)
+            elif isinstance(s, ast.If):
+                names |= only_local_scalars(s.body) | only_local_scalars(s.orelse)
+            else:
+                raise TranslateError('penalize default epsilon block: ' + t2.src(s)[:80])
+        return names
+    assigned = only_local_scalars(blk.body)
+    if 'epsilon' not in assigned or assigned & {'Aout', 'd', 'D', 'b', 'x', 'I', 'A'}:
+        raise TranslateError('penalize default epsilon block assigns ' + repr(sorted(assigned)))
     mv = MvTr({'Aout': ('M', 'mat'), 'D': ('D', 'idx'), 'epsilon': ('w', 'invw')})
     for s in body[2:3] + body[4:6]:
         mv.stmt(s)
@@ -477,19 +539,108 @@ def translate_penalize(fn):
     return [mdef, rdef]
 
 
+def translate_flatten_dofs(fn):
+    """_flatten_dofs: ndarray -> itself, DofsView -> .flatten(), dict of views -> np.unique(np.concatenate(flattened views))"""
+    body = _body(fn)
+    if [a.arg for a in fn.args.args] != ['S'] or len(body) != 3:
+        raise TranslateError('_flatten_dofs shape')
+    _expect(body[0], 'if S is None:\n    return None', '_flatten_dofs None')
+    br = body[1]
+    tests = []
+    while isinstance(br, ast.If):
+        tests.append((t2.src(br.test), br.body))
+        br = br.orelse[0] if len(br.orelse) == 1 else None
+    if [x[0] for x in tests] != ['isinstance(S, ndarray)', 'isinstance(S, DofsView)', 'isinstance(S, dict)']:
+        raise TranslateError('_flatten_dofs branches ' + repr([x[0] for x in tests]))
+    _expect(tests[0][1][0], 'return S', '_flatten_dofs ndarray')
+    _expect(tests[1][1][0], 'return S.flatten()', '_flatten_dofs view')
+    d = tests[2][1]
+    if len(d) != 2 or not isinstance(d[0], ast.FunctionDef):
+        raise TranslateError('_flatten_dofs dict branch')
+    _expect(d[0], 'def _flatten_helper(S, key):\n    if key in S and isinstance(S[key], DofsView):\n        return S[key].flatten()\n'
+                  '    raise NotImplementedError', '_flatten_dofs helper')
+    _expect(d[1], 'return np.unique(np.concatenate([_flatten_helper(S, key) for key in S]))', '_flatten_dofs dict')
+    if not isinstance(body[2], ast.Raise):
+        raise TranslateError('_flatten_dofs fallthrough')
+    return ('Definition gen_flatten_dict (views : list (list nat)) : list nat := sort_unique (concat views).'
+            '   (* np.unique(np.concatenate([...])) *)')
+
+
+def translate_mpc(tree):
+    fn = t2.find_def(tree, 'mpc')
+    body = _body(fn)
+    if [a.arg for a in fn.args.args] != ['A', 'b', 'S', 'M', 'T', 'g']:
+        raise TranslateError('mpc signature')
+    want = ['if M is None:\n    M = np.array([], dtype=np.int32)',
+            'if S is None:\n    S = np.array([], dtype=np.int32)',
+            None,
+            'if T is None:\n    T = sp.eye(len(S), len(M))',
+            'if g is None:\n    g = np.zeros(len(S))',
+            "if T.shape[0] != len(S) or T.shape[1] != len(M) or len(g) != len(S):\n    raise ValueError('Inputs to mpc have incompatible shapes.')"]
+    if len(body) != 9:
+        raise TranslateError(f'mpc: {len(body)} statements')
+    for s, w in zip(body, want):
+        if w is not None:
+            _expect(s, w, 'mpc prologue')
+    _expect(body[2], 'U = np.setdiff1d(np.arange(A.shape[0], dtype=np.int32), np.concatenate((M, S)))', 'mpc U')
+    env = {'A': ('A', 'mat'), 'T': ('T', 'mat'), 'b': ('b', 'vec'), 'g': ('g', 'vec'),
+           'U': ('U', 'idx'), 'M': ('M', 'idx'), 'S': ('S', 'idx')}
+    sB, sy, ret = body[6], body[7], body[8]
+    if not (isinstance(sB, ast.Assign) and t2.src(sB.targets[0]) == 'B' and isinstance(sy, ast.Assign) and t2.src(sy.targets[0]) == 'y'):
+        raise TranslateError('mpc: B / y assignments')
+    Bt, tB = MvTr(env).expr(sB.value)
+    yt, ty = MvTr(env).expr(sy.value)
+    if (tB, ty) != ('mat', 'vec'):
+        raise TranslateError('mpc: types of B, y')
+    if not (isinstance(ret, ast.Return) and isinstance(ret.value, ast.Tuple) and len(ret.value.elts) == 4):
+        raise TranslateError('mpc return')
+    r0_, r1_, r2_, r3_ = ret.value.elts
+    if t2.src(r0_) != 'B' or t2.src(r1_) != 'y':
+        raise TranslateError('mpc return B, y')
+    _expect(r2_, 'np.zeros_like(b, dtype=B.dtype)', 'mpc x0')
+    if not (isinstance(r3_, ast.Tuple) and len(r3_.elts) == 2 and isinstance(r3_.elts[1], ast.Lambda)):
+        raise TranslateError('mpc return tuple')
+    perm, tp = MvTr(env).expr(r3_.elts[0])
+    lam = r3_.elts[1]
+    if [a.arg for a in lam.args.args] != ['x'] or lam.args.vararg or lam.args.kwarg:
+        raise TranslateError('mpc lambda signature')
+    envl = dict(env)
+    envl['x'] = ('x', 'vec')
+    ex, te = MvTr(envl).expr(lam.body)
+    if (tp, te) != ('idx', 'vec'):
+        raise TranslateError('mpc: types of permutation / expansion')
+    # the tuple branches of solve_linear / solve_eigen
+    lin = t2.find_def(tree, 'solve_linear')
+    blk = t2.only([s for s in _body(lin) if isinstance(s, ast.If) and t2.src(s.test) == 'x is not None and I is not None'], 'solve_linear block')
+    _expect(blk.body[1].body[0], 'np.add.at(y, I[0], I[1](solver(A, b, **kwargs)))', 'solve_linear tuple branch')
+    eig = t2.find_def(tree, 'solve_eigen')
+    blk = t2.only([s for s in _body(eig) if isinstance(s, ast.If) and t2.src(s.test) == 'x is not None and I is not None'], 'solve_eigen block')
+    _expect(blk.body[2].body[0], 'np.add.at(y, I[0], np.array([I[1](x) for x in X.T]).T)', 'solve_eigen tuple branch')
+    return ['Definition gen_mpc_U (n : nat) (M S : list nat) : list nat := complement n (M ++ S).',
+            f'Definition gen_mpc_B (A T : mat) (U M S : list nat) : mat :=\n  {Bt}.',
+            f'Definition gen_mpc_y (A : mat) (b g : vec) (U M S : list nat) : vec :=\n  {yt}.',
+            f'Definition gen_mpc_perm (U M S : list nat) : list nat := {perm}.',
+            f'Definition gen_mpc_expand (T : mat) (g : vec) (U : list nat) (x : vec) : vec := {ex}.',
+            'Definition gen_expand_tuple (x : vec) (perm : list nat) (f : vec -> vec) (z : vec) : vec := vadd_at o x perm (f z).'
+            '   (* np.add.at(y, I[0], I[1](z)) *)',
+            'Definition gen_expand_tuple_eig (x : vec) (perm : list nat) (f : vec -> vec) (X : list vec) : list vec :=\n'
+            '  map (fun z => gen_expand_tuple x perm f z) X.']
+
+
 def translate():
     tree = t2.parse(SRC)
     idx_def, enf = translate_enforce(t2.find_def(tree, 'enforce'))
-    parts = [translate_init_bc(t2.find_def(tree, '_init_bc'))]
+    parts = [translate_flatten_dofs(t2.find_def(tree, '_flatten_dofs')), translate_init_bc(t2.find_def(tree, '_init_bc'))]
     parts += translate_condense(t2.find_def(tree, 'condense'))
     parts += translate_solve(tree)
     parts += enf
     parts += translate_penalize(t2.find_def(tree, 'penalize'))
+    parts += translate_mpc(tree)
     sec = '\n'.join(parts)
     return f'''(* GENERATED by vlib/c05_tr.py from {SRC} — do not edit *)
 From Coq Require Import List ZArith.
 Import ListNotations.
-Require Import Base.C05_Np Model.C05_BC.
+Require Import Base.C05_Np Model.C05_BC Model.C05_MPC.
 
 (* enforce: "set rows on lhs to zero" — positions of the stored values to be zeroed *)
 {idx_def}
